@@ -1,5 +1,6 @@
 """T1 unit for class groups (C12): label extraction, undefined-label check, per-group dispatch."""
 import ast
+from harness.translate.normalize import body_differs
 
 from harness.translate.main import unit, parse
 from harness.translate.pyx import Refuse, Tr, find_func, strip_doc, dotted
@@ -28,7 +29,7 @@ def groups():
         if need not in init:
             raise Refuse("LabelGroup.__init__: missing " + need.split("\n")[0])
     anyc = find_func(lg, "__call__", "_LabelGroupAny")
-    if [ast.unparse(s) for s in strip_doc(anyc.body)] != ["array = array.copy()", "return array"]:
+    if body_differs(anyc, ["array = array.copy()", "return array"]):
         raise Refuse("_LabelGroupAny.__call__")
     sc = parse("panoptica/utils/segmentation_class.py")
     h = find_func(sc, "has_defined_labels_for", "SegmentationClassGroups")
